@@ -495,6 +495,13 @@ func (res *CheckResult) checkSource(source parser.Source) {
 				variableLiterals = append(variableLiterals, *allotment)
 				res.checkExpression(allotment, TypePortion)
 			case *parser.RatioLiteral:
+				if allotment.Denominator == nil || allotment.Denominator.Sign() == 0 {
+					res.Diagnostics = append(res.Diagnostics, Diagnostic{
+						Range: allotment.Range,
+						Kind:  &ZeroDenominatorPortion{},
+					})
+					break
+				}
 				sum.Add(sum, allotment.ToRatio())
 			case *parser.RemainingAllotment:
 				if isLast {
@@ -548,6 +555,13 @@ func (res *CheckResult) checkDestination(destination parser.Destination) {
 				variableLiterals = append(variableLiterals, *allotment)
 				res.checkExpression(allotment, TypePortion)
 			case *parser.RatioLiteral:
+				if allotment.Denominator == nil || allotment.Denominator.Sign() == 0 {
+					res.Diagnostics = append(res.Diagnostics, Diagnostic{
+						Range: allotment.Range,
+						Kind:  &ZeroDenominatorPortion{},
+					})
+					break
+				}
 				sum.Add(sum, allotment.ToRatio())
 			case *parser.RemainingAllotment:
 				if isLast {
